@@ -33,6 +33,10 @@ def go_env():
     env["GOTOOLCHAIN"] = "local"
     env["GOSUMDB"] = "off"
     env.pop("GOWORK", None)
+    # This sandbox exports AWS_CA_BUNDLE; with it the AWS SDK's NewSession rewrites the shared
+    # http.DefaultClient's transport on every call (a data race inside the SDK as soon as two
+    # threads create sessions). The checks never talk to AWS; keep the SDK's default path.
+    env.pop("AWS_CA_BUNDLE", None)
     return env
 
 
@@ -317,8 +321,10 @@ def run_check(pid, cfg, tier_name, seed, tmp):
                 if a not in m["assumptions"]:
                     m["assumptions"].append(a)
             for v in s.get("violations") or []:
-                shard_viol = True
                 msg = v.get("msg", "")
+                if "WARNING: DATA RACE" in open(os.path.join(out, "log.txt"), errors="replace").read() and "without a recorded case" in msg:
+                    continue  # reported below from the race detector's own text
+                shard_viol = True
                 kf = matches_known(pid, msg)
                 if kf is not None:
                     line = "KNOWN-FINDING: property=%s %s [%s]" % (pid, kf["what"], kf["id"])
@@ -331,6 +337,20 @@ def run_check(pid, cfg, tier_name, seed, tmp):
                     dst = os.path.join(found_dir(pid), "%s-noreplay.txt" % name)
                     open(dst, "w").write(msg + "\n" + log_tail)
                 violations.append((dst, msg))
+        full_log = open(os.path.join(out, "log.txt"), errors="replace").read()
+        if "WARNING: DATA RACE" in full_log and not shard_viol:
+            # the race detector's report is the evidence; schedules do not replay, so the
+            # journaled case is given as the input that was running
+            jfiles = [f for f in os.listdir(out) if f.startswith("journal-")]
+            i = full_log.index("WARNING: DATA RACE")
+            report = full_log[i:i + 6000]
+            if jfiles:
+                dst = save_found(pid, os.path.join(out, jfiles[0]), name + "-race")
+            else:
+                dst = os.path.join(found_dir(pid), "%s-race.txt" % name)
+            open(dst + ".race-report.txt", "w").write(report)
+            violations.append((dst, "race detector report (full text beside the replay file):\n" + report[:1800]))
+            continue
         if p.returncode not in (0, None) and not shard_viol:
             if any(("%s shard %d hit" % (name, sh)) in x for x in inconclusive):
                 continue
